@@ -464,7 +464,7 @@ pub fn run(case: &str, st: &mut Stats) -> Outcome {
             if polynomial_len(cp) != np.len || got != np.len || (0..np.len).any(|i| buf[i] != np.coefficients[i].0) { fails.push(format!("entry {k}: bdd_wmc_poly differs from the native polynomial count")); }
             destroy_polynomial(cp);
             // scratch accessors: default when empty, value after set, default again after clear
-            if !n.is_const() {
+            if !n.is_const() && !bdd_is_const(c) {
                 let d = 77 + k;
                 let s0 = bdd_scratch(c, d);
                 bdd_set_scratch(c, 1000 + k);
@@ -477,7 +477,7 @@ pub fn run(case: &str, st: &mut Stats) -> Outcome {
             }
             // a mark set through the C API on a child must be what the native mark is to
             // count_nodes (which skips nodes already marked with a usize): same count both ways
-            if !n.is_const() && !n.low_raw().is_const() {
+            if !n.is_const() && !n.low_raw().is_const() && !bdd_is_const(c) && !bdd_is_const(bdd_low(c)) {
                 let cl = bdd_low(c);
                 bdd_set_scratch(cl, 5);
                 let cc = bdd_count_nodes(c);
